@@ -14,7 +14,7 @@ pub mod timer;
 use crate::common::World;
 
 pub fn all() -> Vec<&'static dyn World> {
-    vec![&mutex::MutexWorld, &semaphore::SemaphoreWorld, &event::EventWorld, &timer::TimerWorld, &oneshot::OneshotWorld, &state::StateWorld, &mpmc::MpmcWorld, &ringbuf::RingBufWorld, &collections::ListWorld, &collections::HeapWorld, &tasks::TaskMutexWorld, &tasks::TaskSemaphoreWorld, &tasks::TaskEventWorld, &tasks::TaskMpmcWorld]
+    vec![&mutex::MutexWorld, &semaphore::SemaphoreWorld, &event::EventWorld, &timer::TimerWorld, &oneshot::OneshotWorld, &state::StateWorld, &mpmc::MpmcWorld, &ringbuf::RingBufWorld, &collections::ListWorld, &collections::HeapWorld, &tasks::TaskMutexWorld, &tasks::TaskSemaphoreWorld, &tasks::TaskEventWorld, &tasks::TaskMpmcWorld, &tasks::TaskOneshotWorld, &tasks::TaskStateWorld, &tasks::TaskTimerWorld]
 }
 
 pub fn by_name(name: &str) -> Option<&'static dyn World> {
